@@ -347,6 +347,13 @@ def s76_upper(a):
 
 
 @spec
+def s76_reading(a):
+    # the reading the library implements inside the band (recorded at build time, see PIN below): remainder 10 is
+    # accepted with check digit 0; no retry on the shifted number
+    return bor(band(kind76(a), r76(a) == digit(a[7])), band(kind76(a), r76(a) == 10, digit(a[7]) == 0))
+
+
+@spec
 def s88(a):
     return ite(a[2] == "9", m06(a, (2, 3, 4, 5, 6, 7, 8), 3, 9, 10), m06(a, (2, 3, 4, 5, 6, 7), 4, 9, 10))
 
@@ -380,6 +387,10 @@ EXACT = {"00": s00, "01": s01, "02": s02, "03": s03, "04": s04, "05": s05, "06":
 # sandwich bands: the published rule has a clause (omitted sub-account retry / remainder 10) that could not be
 # re-read offline; lower ⊆ code ⊆ upper is proved, the band in between is declared unspecified (DESIGN C07)
 BAND = {"13": (s13_main, s13_upper), "63": (s63_main, s63_upper), "76": (s76_lower, s76_upper)}
+# inside a band the property is undecidable offline; to notice that the code MOVED inside a band, the verdict function
+# the library implements today is pinned: a tree whose verdict differs from the pin but stays inside the band is
+# reported UNDECIDED (exit 2), never as a violation and never as a pass
+PIN = {"13": s13_main, "63": s63_main, "76": s76_reading}
 
 
 @spec
